@@ -420,11 +420,17 @@ func (op *redirOp) exec(fm *Frame, fops *[]formOwnedPort) Exception {
 	}
 
 	dstPort := growAccess(&fm.ports, dst)
-	dstFop := growAccess(fops, dst)
-	if *dstPort != nil {
-		dstFop.close(*dstPort)
-		*dstFop = formOwnedPort{File: false, Chan: false}
+	if fop := *growAccess(fops, dst); fop.File || fop.Chan {
+		*growAccess(fops, dst) = formOwnedPort{File: false, Chan: false}
+		if heir := otherFdOfPort(fm.ports, *dstPort, dst); heir >= 0 {
+			// The port has been duplicated to another FD, which keeps it open
+			// and takes over the responsibility of closing it.
+			*growAccess(fops, heir) = fop
+		} else {
+			fop.close(*dstPort)
+		}
 	}
+	dstFop := growAccess(fops, dst)
 
 	if op.srcIsFd {
 		src, err := evalForFd(fm, op.srcOp, true, "redirection source")
@@ -492,6 +498,16 @@ func (op *redirOp) exec(fm *Frame, fops *[]formOwnedPort) Exception {
 		*dstPort = fileRedirPort(op.mode, srcFile)
 	}
 	return nil
+}
+
+// Returns an FD other than except that refers to port p, or -1.
+func otherFdOfPort(ports []*Port, p *Port, except int) int {
+	for fd, q := range ports {
+		if q == p && fd != except {
+			return fd
+		}
+	}
+	return -1
 }
 
 // Creates a port that only have a file component, populating the
